@@ -96,6 +96,25 @@ example : ValidCurve (⟨5, none, 100, 1000000⟩ : Curve ℝ) ∧ (1 : ℝ) ≤
   simp only [List.mem_cons, List.not_mem_nil, or_false] at hp
   rcases hp with rfl | rfl | rfl <;> norm_num
 
+/-- The guard `1 ≤ k_1` of the ordering clause is sharp: for `1/2 ≤ k_1 ≤ 1` (accepted by `WoehlerCurve._validate`, no
+    physical Wöhler line) the Haibach slope `2 k_1 - 1` is flatter than `k_1` and the order is the other way round,
+    class by class.  (Not a property theorem: it documents why the clause is stated for `k_1 ≥ 1` only.) -/
+theorem damage_order_reversed_below_k1_one (c : Curve ℝ) (hc : ValidCurve c) (hk : 1 / 2 ≤ c.k1) (hk1 : c.k1 ≤ 1)
+    (p : ℝ × ℝ) (hS : 0 ≤ p.1) (hn : 0 ≤ p.2) :
+    damageTerm (minerElementary c) p ≤ damageTerm (minerHaibach c) p := by
+  have hSD := hc.SD_pos
+  have hND := hc.ND_pos
+  by_cases h : p.1 < c.SD
+  · have hx0 : 0 ≤ p.1 / c.SD := div_nonneg hS hSD.le
+    have hx1 : p.1 / c.SD ≤ 1 := by rw [div_le_one hSD]; exact h.le
+    rw [damageTerm_haibach_lt c p h, damageTerm_elementary_lt c p h,
+      div_basquin _ _ _ _ hx0, div_basquin _ _ _ _ hx0]
+    apply div_le_div_of_nonneg_right _ hND.le
+    apply mul_le_mul_of_nonneg_left _ hn
+    exact Real.rpow_le_rpow_of_exponent_ge' hx0 hx1 (by linarith) (by linarith)
+  · rw [damageTerm_ge (minerHaibach c) p h, damageTerm_ge (minerElementary c) p h]
+    exact le_refl _
+
 /-! ## Gassner cycles give damage one (repaired code: largest OCCUPIED amplitude, `k_1` line) -/
 
 /-- Applying the collective for the Miner-elementary Gassner cycles gives damage 1 under the elementary rule,
@@ -200,7 +219,10 @@ example : (0 : ℝ) < (⟨5, Woehler.Life.inf, 200, 1000000, 4, 5 / 4, 1 / 10⟩
 
 /-! ## effective damage sum -/
 
-/-- `effective_damage_sum(A)` lies in `[0.3, 1]` for every `A` (no precondition) -/
+/-- `effective_damage_sum(A)` lies in `[0.3, 1]`.  Stated for every real `A` because over ℝ `2 / 0 = 0` and `rpow` is
+    total; the CODE is only defined for `A > 0` (`A = 0`: ZeroDivisionError, `A < 0`: complex number, TypeError in
+    `max`) - `effective_damage_sum_of_collective` below shows that the lifetime multiples of a loaded collective are
+    positive, `effective_damage_sum_piecewise` pins the expression between the two clips. -/
 theorem effective_damage_sum_bounds (A : ℝ) :
     (3 / 10 : ℝ) ≤ effectiveDamageSum A ∧ effectiveDamageSum A ≤ 1 := by
   unfold effectiveDamageSum pyMin pyMax
@@ -209,7 +231,165 @@ theorem effective_damage_sum_bounds (A : ℝ) :
 example : (3 / 10 : ℝ) ≤ effectiveDamageSum (lifetimeMultipleElementary ⟨5, none, 100, 1000000⟩ [(150, 10), (80, 1000)]) :=
   (effective_damage_sum_bounds _).1
 
-/-! ## the code before the repair (findings F-3, F-10), refuted in the kernel -/
+/-! ## lifetime multiples are positive; the effective damage sum as a function of the lifetime multiple
+
+`effective_damage_sum_bounds` alone would hold for any expression clipped to `[0.3, 1]`.  The three theorems below pin
+the expression: for a loaded collective both lifetime multiples are positive (the code raises `ZeroDivisionError` for
+`A = 0` and returns a complex number for `A < 0`; neither occurs), `D_m = 1` up to `A = 16`, `D_m = 2 / A^(1/4)` between
+`16` and `(20/3)^4 ≈ 1975.3`, `D_m = 0.3` beyond. -/
+
+theorem lifetime_multiple_elementary_pos (c : Curve ℝ) (l : Coll ℝ) (hl : ValidColl l) (hload : Loaded l) :
+    0 < lifetimeMultipleElementary c l := by
+  have hT : 0 < total l := total_pos hl (by obtain ⟨p, hp, hp2, _⟩ := hload; exact ⟨p, hp, hp2⟩)
+  have hE := esum_pos c.k1 l hl hload
+  simp only [lifetimeMultipleElementary, solidityHaibach_eq, one_lit]
+  exact div_pos one_pos (div_pos hE hT)
+
+theorem lifetime_multiple_haibach_pos (c : Curve ℝ) (hc : ValidCurve c) (l : Coll ℝ) (hl : ValidColl l)
+    (hload : Loaded l) : 0 < lifetimeMultipleHaibach c l := by
+  have hT : 0 < total l := total_pos hl (by obtain ⟨p, hp, hp2, _⟩ := hload; exact ⟨p, hp, hp2⟩)
+  have hH := hsum_pos c hc l hl hload
+  simp only [lifetimeMultipleHaibach, lifetimeMultipleHaibachAt_eq]
+  exact div_pos hT hH
+
+private theorem rpow_quarter_le_iff {A b : ℝ} (hA : 0 < A) (hb : 0 < b) : A ^ (1 / 4 : ℝ) ≤ b ↔ A ≤ b ^ (4 : ℕ) := by
+  have h4 : (A ^ (1 / 4 : ℝ)) ^ (4 : ℕ) = A := by
+    rw [← Real.rpow_natCast, ← Real.rpow_mul hA.le]; norm_num
+  have hq : 0 < A ^ (1 / 4 : ℝ) := Real.rpow_pos_of_pos hA _
+  constructor
+  · intro h; rw [← h4]; exact pow_le_pow_left₀ hq.le h 4
+  · intro h; rw [← h4] at h; exact le_of_pow_le_pow_left₀ (by norm_num) hb.le h
+
+/-- the effective damage sum of a positive lifetime multiple, piece by piece -/
+theorem effective_damage_sum_piecewise (A : ℝ) (hA : 0 < A) :
+    (A ≤ 16 → effectiveDamageSum A = 1) ∧
+    (16 ≤ A → A ≤ (20 / 3) ^ (4 : ℕ) → effectiveDamageSum A = 2 / A ^ (1 / 4 : ℝ)) ∧
+    ((20 / 3) ^ (4 : ℕ) ≤ A → effectiveDamageSum A = 3 / 10) := by
+  have hq : 0 < A ^ (1 / 4 : ℝ) := Real.rpow_pos_of_pos hA _
+  have h16 : A ^ (1 / 4 : ℝ) ≤ 2 ↔ A ≤ 16 := by
+    rw [rpow_quarter_le_iff hA (by norm_num)]; norm_num
+  have hbig : A ^ (1 / 4 : ℝ) ≤ 20 / 3 ↔ A ≤ (20 / 3) ^ (4 : ℕ) := rpow_quarter_le_iff hA (by norm_num)
+  have hform : effectiveDamageSum A =
+      (if 1 < (if (3 / 10 : ℝ) < 2 / A ^ (1 / 4 : ℝ) then 2 / A ^ (1 / 4 : ℝ) else 3 / 10) then 1
+       else (if (3 / 10 : ℝ) < 2 / A ^ (1 / 4 : ℝ) then 2 / A ^ (1 / 4 : ℝ) else 3 / 10)) := by
+    unfold effectiveDamageSum pyMin pyMax
+    simp only [transc_pow, one_lit, two_lit]
+    norm_num
+  rw [hform]
+  have h16' : (16 : ℝ) ^ (1 / 4 : ℝ) = 2 := by
+    rw [show (16 : ℝ) = 2 ^ (4 : ℕ) by norm_num, ← Real.rpow_natCast, ← Real.rpow_mul (by norm_num)]; norm_num
+  have hbig' : (((20 : ℝ) / 3) ^ (4 : ℕ)) ^ (1 / 4 : ℝ) = 20 / 3 := by
+    rw [← Real.rpow_natCast, ← Real.rpow_mul (by norm_num)]; norm_num
+  refine ⟨fun h => ?_, fun h1 h2 => ?_, fun h => ?_⟩
+  · have h2 : A ^ (1 / 4 : ℝ) ≤ 2 := h16.mpr h
+    have h3 : 1 ≤ 2 / A ^ (1 / 4 : ℝ) := by rw [le_div_iff₀ hq]; linarith
+    generalize 2 / A ^ (1 / 4 : ℝ) = x at *
+    split_ifs <;> linarith
+  · have h3 : 2 ≤ A ^ (1 / 4 : ℝ) := by
+      rw [← h16']; exact Real.rpow_le_rpow (by norm_num) h1 (by norm_num)
+    have h4 : A ^ (1 / 4 : ℝ) ≤ 20 / 3 := hbig.mpr h2
+    have h5 : 2 / A ^ (1 / 4 : ℝ) ≤ 1 := by rw [div_le_iff₀ hq]; linarith
+    have h6 : (3 / 10 : ℝ) ≤ 2 / A ^ (1 / 4 : ℝ) := by rw [le_div_iff₀ hq]; linarith
+    generalize 2 / A ^ (1 / 4 : ℝ) = x at *
+    split_ifs <;> linarith
+  · have h3 : 20 / 3 ≤ A ^ (1 / 4 : ℝ) := by
+      rw [← hbig']; exact Real.rpow_le_rpow (by positivity) h (by norm_num)
+    have h4 : 2 / A ^ (1 / 4 : ℝ) ≤ 3 / 10 := by rw [div_le_iff₀ hq]; linarith
+    generalize 2 / A ^ (1 / 4 : ℝ) = x at *
+    split_ifs <;> linarith
+
+example : effectiveDamageSum (81 : ℝ) = 2 / (81 : ℝ) ^ (1 / 4 : ℝ) :=
+  (effective_damage_sum_piecewise 81 (by norm_num)).2.1 (by norm_num) (by norm_num)
+
+/-- `obj.effective_damage_sum(collective)` of both Miner rules lies in `[0.3, 1]`, and its argument is a positive
+    lifetime multiple (so the code neither divides by zero nor leaves the reals) -/
+theorem effective_damage_sum_of_collective (c : Curve ℝ) (hc : ValidCurve c) (l : Coll ℝ) (hl : ValidColl l)
+    (hload : Loaded l) :
+    (0 < lifetimeMultipleElementary c l ∧ (3 / 10 : ℝ) ≤ effectiveDamageSum (lifetimeMultipleElementary c l) ∧
+      effectiveDamageSum (lifetimeMultipleElementary c l) ≤ 1) ∧
+    (0 < lifetimeMultipleHaibach c l ∧ (3 / 10 : ℝ) ≤ effectiveDamageSum (lifetimeMultipleHaibach c l) ∧
+      effectiveDamageSum (lifetimeMultipleHaibach c l) ≤ 1) :=
+  ⟨⟨lifetime_multiple_elementary_pos c l hl hload, effective_damage_sum_bounds _⟩,
+   ⟨lifetime_multiple_haibach_pos c hc l hl hload, effective_damage_sum_bounds _⟩⟩
+
+/-- non-vacuity: a collective straddling `SD` with an empty top class and a class of amplitude 0 -/
+example : (0 : ℝ) < lifetimeMultipleHaibach ⟨5, none, 100, 1000000⟩ [(150, 10), (80, 1000), (200, 0), (0, 5)] := by
+  refine (effective_damage_sum_of_collective ⟨5, none, 100, 1000000⟩ ⟨by norm_num, by norm_num⟩ _ ?_
+    ⟨(150, 10), by simp, by norm_num, by norm_num⟩).2.1
+  intro p hp
+  simp only [List.mem_cons, List.not_mem_nil, or_false] at hp
+  rcases hp with rfl | rfl | rfl | rfl <;> norm_num
+
+/-! ## the accessor objects: a used object answers like a fresh one (`Model/Miner.lean`, state machine)
+
+Object state is part of the model: `run` threads the state of ONE object through a sequence of calls.  The theorems
+hold for every carrier (in particular for the `Float` instance the driver runs). -/
+
+section objects
+variable {α : Type} [Add α] [Sub α] [Mul α] [Div α] [Neg α] [OfScientific α]
+  [LT α] [LE α] [DecidableLT α] [DecidableLE α] [Transc α]
+
+/-- no call changes what the object holds -/
+theorem object_step_keeps_state (ppf : α → α) (o : Obj α) (op : Op α) : (step ppf o op).1 = o := rfl
+
+/-- a sequence of calls on one object: the state at the end is the state at the start and every answer is the answer
+    a fresh object (same class, same curve) gives to that call alone -/
+theorem object_sequence_eq_fresh (ppf : α → α) (o : Obj α) (ops : List (Op α)) :
+    (run ppf o ops).1 = o ∧ (run ppf o ops).2 = ops.map (fun op => (step ppf o op).2) := by
+  induction ops with
+  | nil => exact ⟨rfl, rfl⟩
+  | cons op ops ih =>
+    simp only [run, List.map_cons, object_step_keeps_state]
+    exact ⟨ih.1, by rw [ih.2]⟩
+
+/-- whatever was asked before (`pre`), the answer to `op` is the answer of a fresh object -/
+theorem object_answer_independent_of_history (ppf : α → α) (o : Obj α) (pre : List (Op α)) (op : Op α) :
+    (run ppf o (pre ++ [op])).2.getLast? = some (answer ppf o op) := by
+  rw [(object_sequence_eq_fresh ppf o _).2, List.map_append]
+  simp [step]
+
+end objects
+
+example : (run (fun x => x) (⟨Kind.elementary, ⟨5, Woehler.Life.inf, 100, 1000000, 1, 1, 1 / 2⟩⟩ : Obj ℝ)
+    ([Op.lifetimeMultiple [(150, 10), (80, 1000)]] ++ [Op.gassnerCycles [(300, 1), (40, 7)]])).2.getLast? =
+    some (answer (fun x => x) ⟨Kind.elementary, ⟨5, Woehler.Life.inf, 100, 1000000, 1, 1, 1 / 2⟩⟩
+      (Op.gassnerCycles [(300, 1), (40, 7)])) :=
+  object_answer_independent_of_history _ _ _ _
+
+example : (run (fun x => x) (⟨Kind.fatigue, ⟨5, Woehler.Life.inf, 100, 1000000, 1, 1, 1 / 2⟩⟩ : Obj ℝ)
+    [Op.damageSum Variant.own [(150, 10)], Op.lifetimeMultiple [(150, 10)], Op.damageSum Variant.haibach [(80, 7)]]).2 =
+    [Op.damageSum Variant.own [(150, 10)], Op.lifetimeMultiple [(150, 10)], Op.damageSum Variant.haibach [(80, 7)]].map
+      (fun op => (step (fun x => x) ⟨Kind.fatigue, ⟨5, Woehler.Life.inf, 100, 1000000, 1, 1, 1 / 2⟩⟩ op).2) :=
+  (object_sequence_eq_fresh _ _ _).2
+
+/-- the property on a USED object: after any sequence of earlier calls (other collectives, other methods) the Gassner
+    cycles a Miner-elementary / Miner-Haibach object returns for `l` give damage one under its rule -/
+theorem object_gassner_damage_one_after_any_history (ppf : ℝ → ℝ) (w : Woehler.Curve ℝ) (hTS : 0 < w.TS)
+    (hTN : 0 < w.TN) (hSD : 0 < w.SD) (hND : 0 < w.ND) (l : Coll ℝ) (hl : ValidColl l) (hload : Loaded l)
+    (pre : List (Op ℝ)) :
+    (∃ NG, (run ppf ⟨Kind.elementary, w⟩ (pre ++ [Op.gassnerCycles l])).2.getLast? = some (some NG) ∧
+      damageSumW ppf (Woehler.minerElementary w) (applyFor NG l) = 1) ∧
+    (∃ NG, (run ppf ⟨Kind.haibach, w⟩ (pre ++ [Op.gassnerCycles l])).2.getLast? = some (some NG) ∧
+      damageSumW ppf (Woehler.minerHaibach w) (applyFor NG l) = 1) := by
+  have h := gassner_damage_one_native ppf w hTS hTN hSD hND l hl hload
+  exact ⟨⟨_, object_answer_independent_of_history ppf _ pre _, h.1⟩,
+         ⟨_, object_answer_independent_of_history ppf _ pre _, h.2⟩⟩
+
+/-- non-vacuity: a curve given for 10 % with scatter, a collective with an empty top class, two earlier calls -/
+example : ∃ NG : ℝ, (run (fun x => x) (⟨Kind.haibach, ⟨5, Woehler.Life.inf, 200, 1000000, 4, 5 / 4, 1 / 10⟩⟩ : Obj ℝ)
+      ([Op.lifetimeMultiple [(300, 1), (40, 7)], Op.gassnerCycles [(20, 3)]] ++
+        [Op.gassnerCycles [(150, 10), (80, 1000), (200, 0)]])).2.getLast? = some (some NG) ∧
+    damageSumW (fun x => x) (Woehler.minerHaibach ⟨5, Woehler.Life.inf, 200, 1000000, 4, 5 / 4, 1 / 10⟩)
+      (applyFor NG [(150, 10), (80, 1000), (200, 0)]) = 1 := by
+  refine (object_gassner_damage_one_after_any_history (fun x => x) ⟨5, Woehler.Life.inf, 200, 1000000, 4, 5 / 4, 1 / 10⟩
+    (by norm_num) (by norm_num) (by norm_num) (by norm_num) [(150, 10), (80, 1000), (200, 0)] ?_
+    ⟨(150, 10), by simp, by norm_num, by norm_num⟩ _).2
+  intro p hp
+  simp only [List.mem_cons, List.not_mem_nil, or_false] at hp
+  rcases hp with rfl | rfl | rfl <;> norm_num
+
+/-! ## the code before the repair (findings F-3, F-10), refuted in the kernel.  Documentation of the two fixed
+defects; NOT counted as proof obligations of the property (audit D11-6). -/
 
 /-- F-3: with an empty top class the unrepaired `gassner_cycles` (largest amplitude of ALL classes) predicts
     a cycle number that gives damage 1/2, not 1 (curve `k_1 = 1, SD = ND = 1`, classes `(1, 1)` and the empty `(2, 0)`). -/
